@@ -336,7 +336,14 @@ impl Prop for C08Searches {
         let mut game: Option<Game> = None;
         let mut raw: Option<(Board, MoveGenerator, SearchContext)> = None;
         let searches = c.replies.len() + 1;
+        // occurrences of each position along the game: a Game registers them, and a position that
+        // has occurred three times is a finished (drawn) game, which the game loops never search
+        let mut seen: BTreeMap<u64, u32> = BTreeMap::new();
+        *seen.entry(pos.fingerprint()).or_insert(0) += 1;
         for i in 0..searches {
+            if seen.get(&pos.fingerprint()).copied().unwrap_or(0) >= 3 {
+                break;
+            }
             let men = pos.men();
             let depth = match men {
                 0..=4 => c.depth,
@@ -448,6 +455,7 @@ impl Prop for C08Searches {
                     b.toggle_turn();
                 }
                 *pos = pos.make(m);
+                *seen.entry(pos.fingerprint()).or_insert(0) += 1;
                 Ok(())
             };
             advance(&m, &mut pos)?;
